@@ -578,6 +578,28 @@ def newOfSlice (k : Kind) (ps : List α) : Option (Dist α) :=
   | some args => newD k args
   | none => none
 
+/-- The arguments `impl Default for X` passes to `X::new` (every one of the 13 `Default` impls is `Self::new(<these>)`:
+`Bernoulli 0.5`, `Beta 1 1`, `Binomial 1 0.5`, `ChiSquared 1`, `DiscreteUniform 0 1`, `Exponential 1`, `Gamma 1 1`, `Gumbel 0 1`,
+`Normal 0 1`, `Pareto 1 1`, `Poisson 1`, `T 1`, `Uniform 0 1`). -/
+def defaultArgs : Kind → List (Arg α)
+  | .bernoulli => [.real ((1 : α) / ((2 : Nat) : α))]
+  | .beta => [.real 1, .real 1]
+  | .binomial => [.int 1, .real ((1 : α) / ((2 : Nat) : α))]
+  | .chisquared => [.int 1]
+  | .discreteuniform => [.int 0, .int 1]
+  | .exponential => [.real 1]
+  | .gamma => [.real 1, .real 1]
+  | .gumbel => [.real 0, .real 1]
+  | .normal => [.real 0, .real 1]
+  | .pareto => [.real 1, .real 1]
+  | .poisson => [.real 1]
+  | .t => [.real 1]
+  | .uniform => [.real 0, .real 1]
+
+/-- `X::default()`: the constructor on the default arguments (so the default object carries the sub-samplers the
+constructor installs).  `Clone` / `Copy` of a record is the identity on the model. -/
+def defaultD (k : Kind) : Option (Dist α) := newD k (defaultArgs k)
+
 /-- One operation on an object: new state and whether the call panicked. -/
 def step (d : Dist α) : Op α → Dist α × Bool
   | .new args =>
